@@ -112,6 +112,31 @@ class FoldUnit:
                 replace_uses(h['n'], str(h['value']), {k})
             elif kind == 'site':         # no hypothesis: only carries the site marker
                 pass
+            elif kind == 'before_call':  # assume(len [+ sum var*scale] > room) immediately before the nth call to callee, then the site marker
+                pat = re.compile(r'^\s+(?:%%[\w.]+ = )?(?:tail |musttail |notail )?call [^@\n]*@%s\(' % re.escape(h['callee']))
+                ks = [j for j, l in enumerate(lines) if pat.match(l)]
+                if h['nth'] >= len(ks):
+                    raise AnalysisBroken('call #%d to %s not found in the IR text of %s' % (h['nth'], h['callee'], fname))
+                k = ks[h['nth']]
+                hcount[0] += 1
+                hn = '%%verif.b%d' % hcount[0]
+                ins = []
+                cur = h['len']
+                if h['lty'] != 'i64':
+                    ins.append('  %s.z = zext %s %s to i64' % (hn, h['lty'], cur))
+                    cur = hn + '.z'
+                for q, (vn, vty, sc) in enumerate(h.get('var', [])):
+                    v = vn
+                    if vty != 'i64':
+                        ins.append('  %s.v%d = sext %s %s to i64' % (hn, q, vty, vn))
+                        v = '%s.v%d' % (hn, q)
+                    ins.append('  %s.m%d = mul i64 %s, %d' % (hn, q, v, sc))
+                    ins.append('  %s.s%d = add i64 %s, %s.m%d' % (hn, q, cur, hn, q))
+                    cur = '%s.s%d' % (hn, q)
+                ins += ['  %s = icmp ugt i64 %s, %d' % (hn, cur, h['room']),
+                        '  call void @llvm.assume(i1 %s)' % hn,
+                        '  call void @verif.site()']
+                lines[k:k] = ins
             elif kind == 'pinexpr':      # uses of n see OP(a, b) over other SSA values / constants (a relational hypothesis on state)
                 k = defline(h['n'])
                 hcount[0] += 1
@@ -162,6 +187,8 @@ class FoldUnit:
                 raise ValueError(kind)
         # site marker: expectations are evaluated on the paths through the (first) hypothesis site
         for h in hyps[:1]:
+            if h.get('kind') == 'before_call':
+                continue
             if h.get('param') and h.get('at_label') is None and h.get('after') is None:
                 continue
             if h.get('after') is not None:
